@@ -50,7 +50,8 @@ type c09Scenario struct {
 	JamDur            time.Duration
 	RetryDur          time.Duration
 	PreAlloc          int
-	NilHandler        bool `json:"nil_panic_handler,omitempty"`
+	NilHandler        bool  `json:"nil_panic_handler,omitempty"`
+	Retune            []int `json:"batch_size_set_at_run_time,omitempty"`
 	KeepQueueOpen     bool
 	Sibling           bool
 	Submitters        [][]c09Sub
@@ -115,6 +116,14 @@ func genC09(t *simrt.Tape, tier string) Scenario {
 	sc.Sibling = t.Bool(1, 4)
 	// SetPanicHandler(nil): panics are swallowed silently, everything else must stay the same
 	sc.NilHandler = t.Bool(1, 5)
+	if sc.StandBy >= 1 && t.Bool(1, 4) {
+		// the batch size (any value is within the quantifier while stand-by >= 1) is changed through its
+		// setter while the pool is working
+		n := 1 + t.Choose(6)
+		for i := 0; i < n; i++ {
+			sc.Retune = append(sc.Retune, []int{0, 1, 3, 0, 2}[t.Choose(5)])
+		}
+	}
 	maxSub, maxJobs := 2, 6
 	if tier == "thorough" {
 		maxSub, maxJobs = 3, 12
@@ -251,6 +260,16 @@ func (sc *c09Scenario) Run(s *simrt.Sim) {
 					s.Yield()
 				}
 			}
+		}))
+	}
+	if len(sc.Retune) > 0 {
+		ths = append(ths, s.Go("retuner", func() {
+			for _, b := range sc.Retune {
+				b := b
+				h.Do("retuner", "SetWorkerBatchSize", b, func() (interface{}, error) { pool.SetWorkerBatchSize(b); return nil, nil })
+				s.Sleep(sc.Unit / 4)
+			}
+			h.Do("retuner", "SetWorkerBatchSize", sc.Batch, func() (interface{}, error) { pool.SetWorkerBatchSize(sc.Batch); return nil, nil })
 		}))
 	}
 	s.WaitUntilTimeout(allDone(ths), 10*time.Minute)
